@@ -69,6 +69,7 @@ def eval_grammar(res, g, entries, inputs, nontrivial, tag='', pyglobals=None, ex
         return None
     rd = g.ruledict()
     hangs = 0
+    steplimits = 0
     for ent in entries:
         name, label = ent if isinstance(ent, tuple) else (ent, '')
         fn = getattr(mod, name).parse
@@ -79,6 +80,11 @@ def eval_grammar(res, g, entries, inputs, nontrivial, tag='', pyglobals=None, ex
                 r = it.run_rule(name)
             except peg.StepLimit:
                 res.hist['ref_steplimit'] += 1
+                steplimits += 1
+                if steplimits >= 4:
+                    # the naive reference is exponential on this grammar: give up on it
+                    res.hist['grammar_abandoned_reference_too_slow'] += 1
+                    return mod
                 continue
             except peg.RefError as e:
                 res.hist['ref_outside_domain'] += 1
